@@ -5,7 +5,7 @@ match search, and the value computed by `joinWords`.  Core only.
 -/
 import NetaddrVerif.Lemmas.C08LHex
 namespace NV.Eui
-open NV.Py NV.Codec NV.Gen
+open NV.Py NV.PyL NV.Codec NV.Gen
 
 /-- a non-empty string of hex digits -/
 def HexTok (t : List Char) : Prop := t ≠ [] ∧ ∀ c ∈ t, isHex c = true
